@@ -191,7 +191,7 @@ Proof.
     destruct (negb (has_space st (x :: t))) eqn:H; [exact N|]. apply negb_false_iff in H.
     destruct (negb (can_add_space st _ new)); [exact N|].
     destruct (negb (is_valid_name new)) eqn:V; [exact N|]. apply negb_false_iff in V.
-    destruct (all_mro_ok _ && all_disjoint _); [|exact N]. simpl.
+    simpl.
     destruct N as [K C]. apply has_space_In in H. destruct (K _ H) as [Np Vp]. split.
     + unfold keys, relabel. simpl. rewrite map_map. simpl. intros q I.
       apply in_map_iff in I. destruct I as ([k v] & <- & I). simpl.
@@ -235,6 +235,9 @@ Proof.
       { destruct (def_ref st (x :: t) n); [|exact N]. simpl.
         apply names_ok_upd; [exact N|]. intros sd m _ J. left. exact J. }
       destruct (mem_str n sys_names || has_gref st n); exact N.
+  - (* SetParams *)
+    unfold step_set_params, reject. destruct (negb (has_space st s)); [exact N|].
+    destruct (negb _); [exact N|]. simpl. apply names_ok_upd; [exact N|]. intros sd m _ J. left. exact J.
 Qed.
 
 Lemma init_names_ok : names_ok init.
